@@ -1,4 +1,5 @@
 import PyTrie.Lemmas.BranchProofs
+import PyTrie.Lemmas.BranchRawRefines
 import PyTrie.Props.C12
 /-! # C13 — binary-trie branches and witnesses are sufficient, exact and unforgeable
 
@@ -66,5 +67,40 @@ theorem reachable_canonical (ops : List C12.Op) (hk : C12.KeysNonEmpty ops) (n :
   have := C12.canon_run ops hk
   rw [h] at this
   exact this
+
+end PyTrie.Props.C13
+
+/-! ## Raw level: `trie/branches.py` as written, over hashes and the database
+
+`Model/BranchRaw.lean` transcribes `_check_if_branch_exist`, `_get_branch`, `_get_trie_nodes` and
+`_get_witness_for_key_prefix` statement by statement (`parse_node(db[node_hash])`, `node_hash in db`); the
+correspondence check runs it against the code, also on databases with a node missing and on older roots. On a
+database storing a canonical tree it returns the encodings of what the tree-level functions return, so every theorem
+above is a theorem about this transcription. -/
+namespace PyTrie.Props.C13
+open PyTrie PyTrie.Bin PyTrie.BinRaw PyTrie.BranchRaw
+
+theorem raw_exists (H : Bytes → Bytes) (hlen : ∀ b, (H b).length = 32) (t : BNode) (hc : BCanon t) (db : Db) (hst : AllStored H db t)
+    (k : Bits) (fuel : Nat) (hf : k.length + 1 < fuel) :
+    existsD (H []) db fuel (hashNode H t) k = .ok (branchExists t k) := existsD_refines H hlen t hc db hst k fuel hf
+
+theorem raw_get_branch (H : Bytes → Bytes) (hlen : ∀ b, (H b).length = 32) (t : BNode) (hc : BCanon t) (db : Db) (hst : AllStored H db t)
+    (k : Bits) (fuel : Nat) (hf : k.length + 1 < fuel) :
+    getBranchD (H []) db fuel (hashNode H t) k = liftR H (getBranch t k) := getBranchD_refines H hlen t hc db hst k fuel hf
+
+theorem raw_trie_nodes (H : Bytes → Bytes) (hlen : ∀ b, (H b).length = 32) (t : BNode) (hc : BCanon t) (db : Db) (hst : AllStored H db t)
+    (fuel : Nat) (hf : bheight t < fuel) :
+    trieNodesD db fuel (hashNode H t) = .ok ((trieNodes t).map (encNode H)) := trieNodesD_refines H hlen t hc db hst fuel hf
+
+/-- the recursion depth of the witness generator is bounded by the height of the trie, not by the key: with an
+    exhausted key at a branch node the code keeps descending to the right -/
+theorem raw_witness (H : Bytes → Bytes) (hlen : ∀ b, (H b).length = 32) (t : BNode) (hc : BCanon t) (db : Db) (hst : AllStored H db t)
+    (k : Bits) (tfuel fuel : Nat) (htf : bheight t < tfuel) (hf : bheight t < fuel) :
+    witnessD db tfuel fuel (hashNode H t) k = liftR H (getWitness t k) :=
+  witnessD_refines_of_height H hlen t hc db hst k tfuel fuel htf hf
+
+theorem raw_blank (H : Bytes → Bytes) (db : Db) (hb : lookup db (H []) = none) (k : Bits) (tfuel fuel : Nat) (hf : 0 < fuel) (htf : 0 < tfuel) :
+    existsD (H []) db fuel (H []) k = .ok false ∧ getBranchD (H []) db fuel (H []) k = .ok [] ∧
+    trieNodesD db tfuel (H []) = .ok [] ∧ witnessD db tfuel fuel (H []) k = .ok [] := top_blank H db hb k tfuel fuel hf htf
 
 end PyTrie.Props.C13
